@@ -529,6 +529,15 @@ def add_rule_stmts(stmts, names, pre=True):
         return ('ifFlag', add_rule_stmts(s.body, names, False), k())
     if isinstance(s, ast.If) and not s.orelse and ast.unparse(s.test) == 'self._in_run':
         return ('ifInRun', add_rule_stmts(s.body, names, False), k())
+    # if not any(s is sink for s in self._sinks): the sink OBJECT is not registered yet (identity, not equality)
+    t = s.test if isinstance(s, ast.If) and not s.orelse else None
+    if isinstance(t, ast.UnaryOp) and isinstance(t.op, ast.Not) and isinstance(t.operand, ast.Call) and ast.unparse(t.operand.func) == 'any' \
+            and len(t.operand.args) == 1 and not t.operand.keywords and isinstance(t.operand.args[0], ast.GeneratorExp):
+        g = t.operand.args[0]
+        if len(g.generators) == 1 and not g.generators[0].ifs and isinstance(g.generators[0].target, ast.Name) \
+                and ast.unparse(g.generators[0].iter) == 'self._sinks' and g.generators[0].target.id not in ('sink', 'self') \
+                and ast.unparse(g.elt) in ('%s is sink' % g.generators[0].target.id, 'sink is %s' % g.generators[0].target.id):
+            return ('ifNotRegistered', add_rule_stmts(s.body, names, False), k())
     if src == 'self._sinks.append(sink)':
         return ('appendSink', k())
     if src == 'sink.startTestRun()':
@@ -566,6 +575,31 @@ def policy_table(cls):
     return '[' + ', '.join(table) + ']'
 
 
+def router_init_stmts(fn):
+    """`StreamResultRouter.__init__` -> [IStmt]"""
+    out = []
+    if [a.arg for a in fn.args.args] != ['self', 'fallback', 'do_start_stop_run'] or [ast.unparse(d) for d in fn.args.defaults] != ['None', 'True']:
+        out.append(OTHER)
+    for s in body_of(fn):
+        src = ast.unparse(s)
+        simple = {'self.fallback = fallback': ('setFallback',), 'self._route_code_prefixes = {}': ('noPrefixes',), 'self._test_ids = {}': ('noIds',),
+                  'self._sinks = []': ('noSinks',), 'self._in_run = False': ('notInRun',)}
+        if src in simple:
+            out.append(simple[src])
+        elif isinstance(s, ast.If) and not s.orelse and [ast.unparse(b) for b in s.body] == ['self._sinks.append(fallback)']:
+            # whether the fallback is registered must not depend on the truth value of the sink object
+            t = ast.unparse(s.test)
+            if t in ('do_start_stop_run and fallback is not None', 'fallback is not None and do_start_stop_run'):
+                out.append(('registerFallbackIfFlagAndPresent',))
+            elif t in ('do_start_stop_run and fallback', 'fallback and do_start_stop_run'):
+                out.append(('registerFallbackIfFlagAndTruthy',))
+            else:
+                out.append(OTHER)
+        else:
+            out.append(OTHER)
+    return out
+
+
 def router_src(tree):
     st = RouterStatus()
     fn = find(tree, 'StreamResultRouter', 'status')
@@ -597,11 +631,14 @@ def addRule : AStmt :=
 
 def policies : List (String × List PStmt) := %s
 
+def init : List IStmt := %s
+
 end TTV.Generated.RouterSrc
 ''' % (lean(st.out('__target__')), lean(st.out('__route__')),
        lean(ctl_stmts(find(tree, 'StreamResultRouter', 'startTestRun'), 'startTestRun')),
        lean(ctl_stmts(find(tree, 'StreamResultRouter', 'stopTestRun'), 'stopTestRun')),
-       lean(add_term), policy_table(find_class(tree, 'StreamResultRouter')))
+       lean(add_term), policy_table(find_class(tree, 'StreamResultRouter')),
+       lean(router_init_stmts(find(tree, 'StreamResultRouter', '__init__'))))
 
 
 # ------------------------------------------------------------------------------------------------ C10: _StreamToTestRecord
@@ -1257,8 +1294,8 @@ def convert_stmts(fn):
     for s in convert_pre(fn):
         src = ast.unparse(s)
         c = status_call(s)
-        if src == 'if not self._started:\n    self.startTestRun()':
-            out.append(('ensureStarted',))
+        if src == 'if not self._started:\n    self._implied_start()':
+            out.append(('ensureStarted',))       # (`self.startTestRun()` here would wipe the time() / tags() given before: not this)
         elif src == 'test_id = test.id()':
             out.append(('bindTestId',))
         elif src == 'now = self._now()':
@@ -1302,6 +1339,64 @@ def e2s_start_stmts(fn):
     return out
 
 
+def find_or_none(tree, cls, name):
+    try:
+        return find(tree, cls, name)
+    except ValueError:
+        return None
+
+
+def start_test_stmts(fn):
+    """`ExtendedToStreamDecorator.startTest` -> [XStmt]"""
+    out = []
+    for st in body_of(fn):
+        out.append({'if not self._started:\n    self._implied_start()': ('ensureStarted',),
+                    "self.status(test_id=test.id(), test_status='inprogress', timestamp=self._now())": ('emitInprogress',),
+                    'self._tags = TagContext(self._tags)': ('pushTags',)}.get(ast.unparse(st), OTHER))
+    if [a.arg for a in fn.args.args] != ['self', 'test']:
+        out.append(OTHER)
+    return out
+
+
+def e2s_init_stmts(fn):
+    """`ExtendedToStreamDecorator.__init__` -> [XStmt]: what exists before any run is started"""
+    out = []
+    if [a.arg for a in fn.args.args] != ['self', 'decorated']:
+        out.append(OTHER)
+    for st in body_of(fn):
+        out.append({'super().__init__([decorated])': ('superInit',), 'TestControl.__init__(self)': ('controlInit',),
+                    'self._started = False': ('clearStarted',), 'self._tags = TagContext()': ('resetTags',),
+                    'self.__now = None': ('resetClock',)}.get(ast.unparse(st), OTHER))
+    return out
+
+
+def implied_start_stmts(fn):
+    """`ExtendedToStreamDecorator._implied_start` -> [XStmt]: save tags and clock, startTestRun(), put them back"""
+    if fn is None:
+        return [OTHER]
+    body = body_of(fn)
+    out = []
+    saved = None
+    for st in body:
+        src = ast.unparse(st)
+        if isinstance(st, ast.Assign) and len(st.targets) == 1 and isinstance(st.targets[0], ast.Tuple) and len(st.targets[0].elts) == 2 \
+                and all(isinstance(x, ast.Name) for x in st.targets[0].elts) and isinstance(st.value, ast.Tuple) and [ast.unparse(x) for x in st.value.elts] == ['self._tags', 'self.__now'] \
+                and st.targets[0].elts[0].id != st.targets[0].elts[1].id and saved is None:
+            saved = [x.id for x in st.targets[0].elts]
+            out.append(('saveState',))
+        elif src == 'self.startTestRun()':
+            out.append(('callStartTestRun',))
+        elif saved is not None and isinstance(st, ast.Assign) and len(st.targets) == 1 and isinstance(st.targets[0], ast.Tuple) \
+                and [ast.unparse(x) for x in st.targets[0].elts] == ['self._tags', 'self.__now'] and isinstance(st.value, ast.Tuple) \
+                and [ast.unparse(x) for x in st.value.elts] == saved:
+            out.append(('restoreState',))
+        else:
+            out.append(OTHER)
+    if [a.arg for a in fn.args.args] != ['self']:
+        out.append(OTHER)
+    return out
+
+
 def convert_src(tree):
     return '''import TTV.Model.ConvertSrc
 /-! GENERATED by harness/pystream.py from testtools/testresult/real.py on every run - do not edit.
@@ -1315,9 +1410,18 @@ def convert : List VStmt :=
 
 def startTestRun : List XStmt := %s
 
+def init : List XStmt := %s
+
+def impliedStart : List XStmt := %s
+
+def startTest : List XStmt := %s
+
 end TTV.Generated.ConvertSrc
 ''' % (lean(convert_stmts(find(tree, 'ExtendedToStreamDecorator', '_convert'))),
-       lean(e2s_start_stmts(find(tree, 'ExtendedToStreamDecorator', 'startTestRun'))))
+       lean(e2s_start_stmts(find(tree, 'ExtendedToStreamDecorator', 'startTestRun'))),
+       lean(e2s_init_stmts(find(tree, 'ExtendedToStreamDecorator', '__init__'))),
+       lean(implied_start_stmts(find_or_none(tree, 'ExtendedToStreamDecorator', '_implied_start'))),
+       lean(start_test_stmts(find(tree, 'ExtendedToStreamDecorator', 'startTest'))))
 
 
 def generate_convert(repo):
